@@ -826,6 +826,18 @@ func (e *engine) getListenerTrampolineForType(functionType *wasm.FunctionType) (
 	return &beforeBuf[0], &afterBuf[0]
 }
 
+// isListenerBeforeTrampoline returns true if addr is in one of the trampolines which call FunctionListener.Before.
+func (e *engine) isListenerBeforeTrampoline(addr uintptr) bool {
+	e.mux.RLock()
+	defer e.mux.RUnlock()
+	for _, buf := range e.sharedFunctions.listenerBeforeTrampolines {
+		if checkAddrInBytes(addr, buf) {
+			return true
+		}
+	}
+	return false
+}
+
 func (cm *compiledModule) getSourceOffset(pc uintptr) uint64 {
 	offsets := cm.sourceMap.executableOffsets
 	if len(offsets) == 0 {
